@@ -56,7 +56,11 @@ pub const LIBRARY: &[&str] = &[
     "7k/8/4K3/8/8/8/8/6Q1 w - -",
     "k7/2Q5/1K6/8/8/8/8/8 b - -",
     "7k/5QQ1/8/8/8/8/8/K7 b - -",
-    "r1bqkb1r/pppp1ppp/2n2n2/4p2Q/2B1P3/8/PPPP1PPP/RNB1K1NR w KQkq -",
+    "r1bqkb1r/pppp1ppp/2n2n2/4p2Q/2B1P3/8/PPPP1PPP/RNB1K1NR w KQkq -",    // extreme mobility (218 legal moves: nine queens), both colours - move-list capacities, counters in narrow types
+    "R6R/3Q4/1Q4Q1/4Q3/2Q4Q/Q4Q2/pp1Q4/kBNN1KB1 w - -",
+    "3Q4/1Q4Q1/4Q3/2Q4R/Q4Q2/3Q4/1Q4Rp/1K1BBNNk w - -",
+    "Kbnn1kb1/PP1q4/q4q2/2q4q/4q3/1q4q1/3q4/r6r b - -",
+    "1k1bbnnK/1q4rP/3q4/q4q2/2q4r/4q3/1q4q1/3q4 b - -",
 ];
 
 pub fn library() -> Result<Vec<Pos>, String> {
